@@ -235,13 +235,44 @@ def instance_store(idx, cls, selfkey="self"):
     try:
         ps = it.run_all(fi, args=args, selfkey=selfkey)
     except AnalysisError:
-        return {}
+        return ctor_literals(idx, cls, selfkey)
     if len(ps) != 1:
         ps = ps[:1]
     out = {}
     for k, v in ps[0].final_store.items():
         if k.startswith(selfkey + ".") and not isinstance(v, Residual):
             out[k] = copy.deepcopy(v)
+    return out
+
+
+def ctor_literals(idx, cls, selfkey="self"):
+    """the attributes the constructors of the class family set to a literal in their straight-line part (`self.x = None`, `= []`, `= 0`);
+    an attribute that is also assigned something else there is left out.  The fallback of instance_store for a constructor that does
+    real work (parses, opens) and cannot be interpreted whole."""
+    import copy
+    out, dropped = {}, set()
+    for c in reversed(idx.mro(cls)):
+        init = c.methods.get("__init__")
+        for st in (init.node.body if init else ()):
+            for n in ast.walk(st):
+                tgts = n.targets if isinstance(n, ast.Assign) else [n.target] if isinstance(n, (ast.AnnAssign, ast.AugAssign)) else []
+                for t in tgts:
+                    for t1 in (t.elts if isinstance(t, ast.Tuple) else [t]):
+                        if isinstance(t1, ast.Attribute) and isinstance(t1.value, ast.Name) and t1.value.id == "self":
+                            k = f"{selfkey}.{t1.attr}"
+                            v = getattr(n, "value", None)
+                            lit = None
+                            if n is st and isinstance(n, (ast.Assign, ast.AnnAssign)) and v is not None and not isinstance(t, ast.Tuple):
+                                try:
+                                    lit = (ast.literal_eval(v),)
+                                except (ValueError, SyntaxError):
+                                    if isinstance(v, ast.Call) and isinstance(v.func, ast.Name) and v.func.id in ("dict", "list") and not v.args and not v.keywords:
+                                        lit = ({} if v.func.id == "dict" else [],)
+                            if lit is None:
+                                dropped.add(k)
+                                out.pop(k, None)
+                            elif k not in dropped:
+                                out[k] = copy.deepcopy(lit[0])
     return out
 
 
@@ -555,6 +586,41 @@ def callers_of(idx, fi):
         _CALLERS_CACHE.clear()
         _CALLERS_CACHE[key] = table
     return _CALLERS_CACHE[key].get(fi.name, [])
+
+
+def reset_before_every_call(idx, fi, reset_name):
+    """True when the function fi has call sites in the package and, at each of them, an unconditional statement `self.<reset_name>()` stands
+    earlier in the same block or in an enclosing block of the caller (so it runs before fi is entered on every path)"""
+    sites = callers_of(idx, fi)
+    if not sites:
+        return False
+    for f, call in sites:
+        found = False
+
+        def visit(body):
+            nonlocal found
+            seen_reset = False
+            for st in body:
+                holds = any(n is call for n in ast.walk(st))
+                if holds:
+                    if seen_reset:
+                        found = True
+                        return True
+                    for fld in ("body", "orelse", "finalbody", "handlers"):
+                        sub = getattr(st, fld, None)
+                        if isinstance(sub, list):
+                            for blk in ([h.body for h in sub] if fld == "handlers" else [sub]):
+                                if any(n is call for b in blk for n in ast.walk(b)):
+                                    return visit(blk)
+                    return True
+                if isinstance(st, ast.Expr) and isinstance(st.value, ast.Call) and call_name(st.value) == reset_name:
+                    seen_reset = True
+            return False
+
+        visit(f.node.body)
+        if not found:
+            return False
+    return True
 
 
 def owners_of(idx, fi, allowed, depth=4, _seen=()):
